@@ -117,6 +117,8 @@ func specSliceCount(byteCount, sliceByteCount int) int {
 // safeName: a declared file name is relative and does not normalise to a path that starts
 // with '.', i.e. neither "." nor "../x" nor a hidden escape; joined with the directory of the
 // index file it therefore stays inside that directory tree (axiom P1 of package path/filepath).
+//@ pred own(s) = cap(s) == 0 || fresh(s)
+//@ pred apartL(a, b) = cap(a) == 0 || cap(b) == 0 || !sameArray(a, b)
 //@ pred safeName(n) = !pathIsAbs(n) && pathClean(n)[0] != 46
 
 //@ func checkFilename
@@ -214,6 +216,28 @@ func specSliceCount(byteCount, sliceByteCount int) int {
 //@     invariant forall(i, 0, rangeindex + 1, infoOK(recoverySet[i], sliceByteCount))
 //@     use-step sliceCountDef(info.byteCount, sliceByteCount)
 
+// C05: what Create records about an input file is computed from the file itself: the description
+// packet carries the MD5 of the whole file, the MD5 of its first 16 KiB (of the whole file if it
+// is shorter), its length and its name, and there is one checksum pair per slice. Nothing but
+// the spare capacity behind the file's bytes is written (sliceAndPadByteArray pads the last
+// slice with append, which may use it). NOT stated: that the k-th pair is the MD5/CRC32 of the
+// k-th padded slice (needs the position of each slice inside data as ghost state).
+//@ func computeDataFileInfo
+//@   props C05
+//@   skip-safety
+//@   seq-ext
+//@   modifies data[len(data):cap(data)]
+//@   ensures result1.byteCount == len(data) && result1.filename == filename
+//@   ensures result1.hash == md5(bytes(data))
+//@   ensures result1.sixteenKHash == md5(bytes(data[:min(len(data), 16384)]))
+//@   ensures len(result2.checksumPairs) == len(result3)
+//@   loop 0
+//@     modifies data[len(data):cap(data)]
+//@     invariant len(checksumPairs) == len(dataShards) && own(dataShards) && own(checksumPairs) && apartL(dataShards, checksumPairs)
+//@     invariant fileDescriptionPacket.byteCount == len(data) && fileDescriptionPacket.filename == filename
+//@     invariant fileDescriptionPacket.hash == md5(bytes(data))
+//@     invariant fileDescriptionPacket.sixteenKHash == md5(bytes(data[:min(len(data), 16384)]))
+
 //@ func sixteenKHash
 //@   props C13 C19 C02 C05
 //@   modifies nothing
@@ -239,6 +263,7 @@ func specSliceCount(byteCount, sliceByteCount int) int {
 //@ func sliceAndPadByteArray
 //@   props C13 C19 C16 C05
 //@   requires 0 <= start && start <= end && start <= len(bs) && end - start <= 281474976710656
+//@   modifies bs[len(bs):cap(bs)]
 //@   ensures len(result) == end - start
 
 // recoveryOK: every recovery block that was accepted is exactly one slice long.
